@@ -66,6 +66,7 @@ var metaPool = [][2]string{
 	{"X-Amz-Meta-Mixed-Case-Name", "MiXeD"}, {"X-Amz-Storage-Class", "STANDARD"},
 	// header values are bytes: UTF-8 beyond ASCII, and Latin-1 (not valid UTF-8; written with the
 	// plan's byte escape, see decodedMeta)
+	{"X-Amz-Meta-Color", ""}, {"X-Amz-Meta-Void", ""}, // a header sent with an empty value
 	{"X-Amz-Meta-Utf8", "ünï cödé"}, {"X-Amz-Meta-Author", `Ren\xe9`}, {"Content-Disposition", `attachment; filename="caf\xe9.txt"`},
 }
 
